@@ -273,7 +273,7 @@ def impl_init(case):
 
 def oracle_init(case, got):
     """Directly on a real object: the three arguments are kept BY REFERENCE (a write through the caller's table is seen through
-    the parser and back), the six other tables are six different empty dicts, nothing else is bound but qualifiers_actions."""
+    the parser and back), the six other tables are six different empty dicts."""
     from pykdebugparser.kevent import from_kd_buf
     from .impl import record_args
     if not got.startswith('ok'):
@@ -297,9 +297,8 @@ def oracle_init(case, got):
             if getattr(parser, a) is getattr(parser, b, None):
                 # one table for both: show it on a record
                 return ('init:%s-is-%s' % (a, b), 'parser.%s and parser.%s are ONE dict object' % (a, b))
-    extra = sorted(set(vars(parser)) - set(ATTRS) - {'qualifiers_actions'})
-    if extra:
-        return ('init:extra-attributes', 'attributes the model does not know: %s' % extra)
+    # (an attribute the model does not know is not a failure by itself: the translator reports it as a note, which breaks
+    #  source_is_expected_ir; what it is USED for shows in the other sections)
     # a declaration made through the parser reaches the caller's table: a TRACE_DATA_NEWTHREAD record
     inv = {v: k for k, v in codes.items()}
     eid = inv.get('TRACE_DATA_NEWTHREAD')
@@ -318,8 +317,7 @@ RULE_INIT = ('a real TracesParser(dict(default_trace_codes()), {7: 70}, {70: "se
              '(IS the k-th argument / the n-th new empty dict / unbound) and the order in which the families reached '
              'parser.handlers (insertion order of its keys), against the object the GENERATED __init__ builds (`pyirinit 3`); '
              'oracle on the real object: the three arguments kept by reference (a later write to the caller\'s table is seen, a '
-             'TRACE_DATA_NEWTHREAD record fed to the parser shows in the caller\'s table), six different empty dicts, no other '
-             'attribute')
+             'TRACE_DATA_NEWTHREAD record fed to the parser shows in the caller\'s table), six different empty dicts')
 
 
 def init_section(rep, runnable=True):
